@@ -434,3 +434,307 @@ class C08Contract(Monitor):
 
 
 ALL = {'C01': C01Ledger, 'C06': C06Cards, 'C07': C07Phases, 'C08': C08Contract}
+
+
+# ---------------------------------------------------------------------------------------------
+import pyspec  # noqa: E402
+
+
+class C02Award(Monitor):
+    """Spec.award: when pushing starts take a snapshot (contributions, who is live, shown
+    hands per board and hand type by the independent ranking); every ChipsPushing must be the
+    award of its pot/board/hand type to the best eligible live hand(s); dead players win
+    nothing; capped winnings; lone survivor takes all."""
+    prop = 'C02'
+
+    def __init__(self):
+        super().__init__()
+        self.snap = None
+        self.won = None
+
+    def _snapshot(self, s: State):
+        n = s.player_count
+        live = [i for i in range(n) if s.statuses[i]]
+        # bets were already increased by the first push when after_log runs: reconstruct
+        contrib = [-s.payoffs[i] for i in range(n)]
+        ante = [s.get_effective_ante(i) for i in range(n)]
+        untrim = not s.ante_trimming_status
+        level = [contrib[i] - (ante[i] if untrim else 0) for i in range(n)]
+        boards = [list(s.get_board_cards(b)) for b in range(s.board_count)]
+        types = [t.__name__ for t in s.hand_types]
+        keys = {}
+        for b, bc in enumerate(boards):
+            for k, tn in enumerate(types):
+                for i in live:
+                    up = list(s.get_up_cards(i))
+                    try:
+                        if tn == 'GreekHoldemHand' and len(up) != 2:
+                            keys[i, b, k] = '?'
+                        else:
+                            keys[i, b, k] = pyspec.best_key(tn, up, bc)
+                    except Exception:  # noqa: BLE001
+                        keys[i, b, k] = '?'
+        self.snap = dict(n=n, live=live, contrib=contrib, level=level, ante=ante, untrim=untrim,
+                         boards=len(boards), types=types, keys=keys,
+                         pots=[(p.raked_amount, p.unraked_amount + 0, tuple(p.player_indices)) for p in s._pots])
+        self.won = [0] * n
+        self.pushed = {}
+        # the expected pots by contribution level (before rake)
+        lv = sorted(set(level))
+        exp = []
+        prev = 0
+        carry = sum(ante) if untrim else 0
+        for v in lv:
+            amount = carry + sum(v - prev for c in level if c >= v)
+            carry = 0
+            players = tuple(i for i in live if level[i] >= v)
+            while exp and exp[-1][1] == players:
+                amount += exp.pop()[0]
+            if amount:
+                exp.append((amount, players))
+            prev = v
+        self.snap['expected_pots'] = exp
+
+    def after_log(self, state, operation):
+        n = type(operation).__name__
+        if n != 'ChipsPushing':
+            return
+        first = self.snap is None
+        if first:
+            # state._pots amounts have already been reduced by this first push: add it back
+            self._snapshot(state)
+            ps = self.snap['pots']
+            r, u, pl = ps[operation.pot_index]
+            ps[operation.pot_index] = (r, u + sum(operation.amounts), pl)
+            sn = self.snap
+            got = [(r + u, pl) for r, u, pl in ps]
+            if got != sn['expected_pots'] and len(sn['live']) > 1:
+                self.report('pots_by_level', 'pots', f'pots {got} but contribution levels {sn["level"]} of live '
+                            f'{sn["live"]} give {sn["expected_pots"]}')
+        sn = self.snap
+        amts = list(operation.amounts)
+        for i, a in enumerate(amts):
+            self.won[i] += a
+            if a and i not in sn['live']:
+                self.report('dead_win_nothing', 'dead_winner', f'player {i} is not in the hand but is pushed {a}')
+            if a < 0:
+                self.report('dead_win_nothing', 'negative_push', f'{amts}')
+        pi = operation.pot_index
+        if pi >= len(sn['pots']):
+            return
+        r, u, players = sn['pots'][pi]
+        if len(sn['live']) == 1:
+            w = sn['live'][0]
+            if any(a and i != w for i, a in enumerate(amts)):
+                self.report('lone', 'lone_survivor', f'{amts} while only player {w} is left')
+            return
+        b, k = operation.board_index, operation.hand_type_index
+        if b is None or k is None:
+            return
+        ks = {i: sn['keys'].get((i, b, k)) for i in players}
+        if any(v == '?' for v in ks.values()):
+            return
+        have = {i: v for i, v in ks.items() if v is not None}
+        if not have:
+            self.report('best_hand', f'no_holder:{sn["types"][k]}', f'sub-pot for hand type {k} with no eligible holder: {amts}')
+            return
+        best = max(have.values())
+        winners = [i for i in players if have.get(i) == best]
+        total = sum(amts)
+        q, rem = divmod(total, len(winners)) if isinstance(total, int) else (None, None)
+        got_winners = [i for i, a in enumerate(amts) if a]
+        if total and set(got_winners) - set(winners):
+            self.report('best_hand', f'wrong_winner:{sn["types"][k]}',
+                        f'pot {pi} board {b} type {sn["types"][k]}: pushed {amts}, best eligible hand(s) held by {winners} '
+                        f'(eligible {list(players)})')
+        elif total and q is not None and state.divmod is impl.putil.divmod:
+            exp = [0] * sn['n']
+            for j, w in enumerate(winners):
+                exp[w] = q + (rem if j == 0 else 0)
+            if exp != amts:
+                self.report('split', f'split:{sn["types"][k]}', f'pushed {amts}, expected {exp}')
+        self.pushed.setdefault((pi, b), []).append((k, total))
+
+    def at_end(self, sess):
+        s = sess.state
+        sn = self.snap
+        if s is None or sn is None or s.status:
+            return
+        # every pot fully awarded, in equal parts per board (first board takes the odd chips)
+        if s.divmod is impl.putil.divmod and len(sn['live']) > 1:
+            for pi, (r, u, pl) in enumerate(sn['pots']):
+                per_board = [sum(t for (k, t) in self.pushed.get((pi, b), [])) for b in range(sn['boards'])]
+                q, rem = divmod(u, sn['boards'])
+                exp = [q + (rem if b == 0 else 0) for b in range(sn['boards'])]
+                if per_board != exp:
+                    self.report('boards_even', 'board_split', f'pot {pi} unraked {u}: per board {per_board}, expected {exp}')
+        # nobody wins from an opponent more than he himself put in (no dead-money antes, no rake)
+        if not sn['untrim'] or not any(sn['ante']):
+            for i in sn['live']:
+                cap = sum(min(sn['contrib'][j], sn['contrib'][i]) for j in range(sn['n']))
+                if self.won[i] > cap:
+                    self.report('capped', 'capped', f'player {i} put in {sn["contrib"][i]} and won {self.won[i]} > {cap}')
+
+
+class C03Betting(Monitor):
+    """Spec.BettingRules: actor, admissible actions and amounts as a function of the *history*
+    of the betting round (no use of the engine's bookkeeping fields)."""
+    prop = 'C03'
+
+    def __init__(self):
+        super().__init__()
+        self.round = None
+
+    # -- history bookkeeping ------------------------------------------------------------
+    def _begin_round(self, s: State):
+        n = s.player_count
+        st = s.street
+        self.round = dict(
+            street=s.street_index, raises=[], acted=set(), count=0,
+            bring_in_pending=(s.street_index == 0 and s.bring_in > 0),
+            completing=(s.street_index == 0 and s.bring_in > 0),
+            queue=None, opener=s.opener_index)
+
+    def _expected_queue_after_raise(self, s, p):
+        n = s.player_count
+        return [i for i in [(p + j) % n for j in range(1, n)] if s.statuses[i] and s.stacks[i] > 0]
+
+    def after_log(self, state, operation):
+        n = type(operation).__name__
+        s = state
+        if n in ('HoleDealing', 'BoardDealing', 'StandingPatOrDiscarding', 'CardBurning', 'BetCollection',
+                 'BlindOrStraddlePosting', 'AntePosting'):
+            self.round = None
+            return
+        if n not in ('Folding', 'CheckingOrCalling', 'BringInPosting', 'CompletionBettingOrRaisingTo'):
+            return
+        r = self.round
+        if r is None or r['street'] != s.street_index and s.street_index is not None:
+            return
+        p = operation.player_index
+        if r['queue'] is not None:
+            if not r['queue'] or r['queue'][0] != p:
+                self.report('actor', 'actor_order', f'{n} by player {p}, but the rules give the turn to '
+                            f'{r["queue"][:1]} (pending {r["queue"]})')
+        if n == 'CompletionBettingOrRaisingTo':
+            inc = operation.amount - r['max_bet_before']
+            prev_max = max((x[0] for x in r['raises']), default=0)
+            if inc >= prev_max:
+                r['acted'] = {p}
+            else:
+                r['acted'].add(p)
+            r['raises'].append((inc, s.stacks[p] == 0))
+            r['count'] += 1
+            r['bring_in_pending'] = False
+            r['completing'] = False
+            r['queue'] = self._expected_queue_after_raise(s, p)
+        else:
+            r['acted'].add(p)
+            if n == 'BringInPosting':
+                r['bring_in_pending'] = False
+            if r['queue'] is not None and r['queue'] and r['queue'][0] == p:
+                r['queue'] = r['queue'][1:]
+            elif r['queue'] is not None and p in r['queue']:
+                r['queue'].remove(p)
+
+    # -- checks at every quiescent betting decision ----------------------------------------
+    def _check(self, sess, where):
+        s = sess.state
+        if s is None or not s.status:
+            return
+        if not s.actor_indices:
+            return
+        if self.round is None or self.round['street'] != s.street_index:
+            self._begin_round(s)
+            # first decision of the round: who may act at all, clockwise from the opener
+            n = s.player_count
+            op = s.opener_index
+            live = [i for i in range(n) if s.statuses[i]]
+            r = self.round
+
+            def eff(i):
+                es = sorted(s.bets[j] + s.stacks[j] for j in live)
+                return min(s.stacks[i], max(0, es[-2] - s.bets[i]))
+            r['queue'] = [i for i in [(op + j) % n for j in range(n)]
+                          if s.statuses[i] and s.stacks[i] > 0 and eff(i) > 0]
+        r = self.round
+        n = s.player_count
+        live = [i for i in range(n) if s.statuses[i]]
+        q = r['queue']
+        actor = s.actor_index
+        if q is not None and (not q or q[0] != actor):
+            self.report('actor', f'actor@{where}', f'actor {actor}, rules: pending {q}')
+            return
+        p = actor
+        max_bet = max(s.bets)
+        r['max_bet_before'] = max_bet
+        st = s.street
+        # fold / call / bring-in
+        exp_call = not r['bring_in_pending']
+        exp_fold = (not r['bring_in_pending']) and (s.bets[p] < max_bet or (
+            s.mode != impl.Mode.TOURNAMENT and not sess.warnerr))
+        exp_bring = r['bring_in_pending']
+        with impl.warnings.catch_warnings():
+            impl.warnings.simplefilter('error' if sess.warnerr else 'ignore')
+            got = (s.can_fold(), s.can_check_or_call(), s.can_post_bring_in())
+            camt = s.checking_or_calling_amount
+        if got != (exp_fold, exp_call, exp_bring):
+            self.report('actions', f'actions@{where}', f'can fold/call/bring-in {got}, rules {(exp_fold, exp_call, exp_bring)} '
+                        f'(bets {s.bets}, player {p}, bring-in pending {r["bring_in_pending"]})')
+        if exp_call and camt != min(s.stacks[p], max_bet - s.bets[p]):
+            self.report('call_amount', 'call_amount', f'{camt} vs min({s.stacks[p]}, {max_bet - s.bets[p]})')
+        # raise admissibility
+        incs = [x[0] for x in r['raises']]
+        max_inc = max(incs, default=0)
+        trailing = []
+        for inc, allin in reversed(r['raises']):
+            if not allin:
+                break
+            trailing.append(inc)
+        cap = st.max_completion_betting_or_raising_count
+        short_rule = bool(trailing) and sum(trailing) < max_inc and p in r['acted']
+        covered = s.stacks[p] <= max_bet - s.bets[p]
+        nobody = not any(i != p and s.stacks[i] + s.bets[i] > max_bet for i in live)
+        exp_raise = not (cap is not None and r['count'] >= cap) and not short_rule and not covered and not nobody
+        es = sorted(s.bets[j] + s.stacks[j] for j in live)
+        effp = min(s.stacks[p], max(0, es[-2] - s.bets[p]))
+        base = max(max_inc, st.min_completion_betting_or_raising_amount) + (0 if r['completing'] else max_bet)
+        exp_min = min(effp + s.bets[p], base)
+        total_pot = s.total_pot_amount
+        if s.betting_structure == impl.BettingStructure.FIXED_LIMIT:
+            exp_max = exp_min
+        elif s.betting_structure == impl.BettingStructure.POT_LIMIT:
+            exp_max = min(s.stacks[p] + s.bets[p], max(exp_min, 2 * max_bet - s.bets[p] + total_pot))
+        else:
+            exp_max = s.stacks[p] + s.bets[p]
+        got_raise = s.can_complete_bet_or_raise_to()
+        if got_raise != exp_raise:
+            self.report('raise_admissible', f'raise={int(got_raise)}',
+                        f'can raise {got_raise}, rules {exp_raise}: cap {cap} count {r["count"]} short-all-in rule {short_rule} '
+                        f'(trailing all-in raises {trailing}, largest raise {max_inc}, acted {sorted(r["acted"])}, player {p}) '
+                        f'covered {covered} nobody-can-call-more {nobody}; bets {s.bets} stacks {s.stacks}')
+            return
+        if exp_raise:
+            mn = s.min_completion_betting_or_raising_to_amount
+            mx = s.max_completion_betting_or_raising_to_amount
+            if (mn, mx) != (exp_min, exp_max):
+                self.report('amounts', f'amounts:{s.betting_structure.name}',
+                            f'min/max raise-to {mn}/{mx}, rules {exp_min}/{exp_max} (bets {s.bets} stacks {s.stacks} '
+                            f'largest raise {max_inc} street min {st.min_completion_betting_or_raising_amount})')
+            else:
+                for x in (exp_min - 1, exp_min, exp_max, exp_max + 1, (exp_min + exp_max) // 2):
+                    want = exp_min <= x <= exp_max
+                    if s.can_complete_bet_or_raise_to(x) != want:
+                        self.report('amounts', 'range', f'raise to {x}: accepted {not want}, bounds {exp_min}..{exp_max}')
+
+    def after_init(self, sess, err):
+        if err is None:
+            self._check(sess, 'init')
+
+    def after_op(self, sess, line, err, valid):
+        if err is None or type(err).__name__ in REFUSALS:
+            self._check(sess, 'op')
+
+
+ALL['C02'] = C02Award
+ALL['C03'] = C03Betting
